@@ -16,6 +16,7 @@ pub trait IntLike: Copy + PartialOrd + fmt::Display + fmt::Debug {
     fn is_13(self) -> bool;
     fn lt0(self) -> bool;
     fn gt50(self) -> bool;
+    fn div100_le50(self) -> bool;
 }
 
 macro_rules! impl_intlike {
@@ -29,6 +30,7 @@ macro_rules! impl_intlike {
             #[allow(unused_comparisons)]
             #[inline] fn lt0(self) -> bool { self < 0 }
             #[inline] fn gt50(self) -> bool { self > 50 }
+            #[inline] fn div100_le50(self) -> bool { 100 / self <= 50 }
         }
     )*};
 }
@@ -56,6 +58,14 @@ pub fn is_even<T: IntLike>(v: &T) -> bool {
 #[inline]
 pub fn not_13<T: IntLike>(v: &T) -> bool {
     !v.is_13()
+}
+
+/// PARTIAL: divides by the value, so it panics at 0 – a predicate a user writes *after* a rule that
+/// excludes 0 (`greater = 0`), relying on validators being evaluated in the order written and stopping
+/// at the first violated one
+#[inline]
+pub fn inv_small<T: IntLike>(v: &T) -> bool {
+    v.div100_le50()
 }
 
 #[derive(Debug, Clone, PartialEq, Eq)]
@@ -199,6 +209,12 @@ pub fn no_x(s: &str) -> bool {
 }
 pub fn has_a(s: &str) -> bool {
     s.contains('a')
+}
+/// PARTIAL: panics on the empty string – a predicate a user writes *after* `not_empty` (or
+/// `len_char_min = 1`), relying on validators being evaluated in the order written and stopping at the
+/// first violated one
+pub fn first_not_x(s: &str) -> bool {
+    s.chars().next().expect("first_not_x: an earlier validator excludes the empty string") != 'x'
 }
 
 #[derive(Debug, Clone, PartialEq, Eq)]
